@@ -7,7 +7,7 @@ from typing import Any, Callable, Dict, List, Optional, Set, Tuple
 from ..core import AnalysisError, Report
 from ..excflow import (GuardFacts, Site, _const_like, _in_annotation, collect_sites, dominating_guards, handler_converts, lexical_handler,
                        make_hierarchy)
-from ..pyfacts import (Repo, cc, cn, ancestors, calls, dotted, enclosing_handlers, handler_types, norm, parent, raise_guards,
+from ..pyfacts import (Repo, cc, cn, normalize_counting_whiles, ancestors, calls, dotted, enclosing_handlers, handler_types, norm, parent, raise_guards,
                        raised_class, walk_no_nested)
 
 ASM = 'flipjump/assembler/assembler.py'
@@ -442,7 +442,9 @@ def rule_write_last(rep: Report, repo: Repo) -> None:
 
 def rule_progress(rep: Report, repo: Repo, clo: List[Tuple[str, str, ast.FunctionDef]]) -> None:
     rep.rule('C14.PROGRESS', 'every while loop in the pipeline strictly progresses on each continuing path', 2)
-    for rel, q, fn in clo:
+    for rel, q, fn0 in clo:
+        # `i = a; while i < b: ...; i += c` is a for loop over range(a, b, c): bounded, nothing to prove
+        fn = normalize_counting_whiles(fn0) if any(isinstance(x, ast.While) for x in ast.walk(fn0)) else fn0
         for n in walk_no_nested(fn):
             if not isinstance(n, ast.While):
                 continue
